@@ -5,6 +5,7 @@ import XalanModel.C05.StreamHoldProofs
 import XalanModel.C05.WrapperProofs
 import XalanModel.C05.XDomProofs
 import XalanModel.C05.StreamFailProofs
+import XalanModel.C05.PIScanProofs
 import XalanModel.C05.Funnel
 import XalanModel.C05.TargetProofs
 import XalanModel.Generated.C05_Funnel
@@ -423,6 +424,51 @@ theorem funnel_only_doTransform_calls_process :
 noticed; a new one is covered by the ∀ above) -/
 theorem funnel_table_complete :
     9 ≤ C05_Funnel.transformOverloads.length ∧ 6 ≤ C05_Funnel.capiEntries.length := by
+  decide
+
+/-! ## (iii') the stylesheet named by the xml-stylesheet processing instruction -/
+
+/-- **The scan of one PI is a lookup.**  For a PI whose data is a sequence of `name="value"` pseudo-attributes with
+distinct names (value tokens are quoted, so never the bare words `type`/`href`), the token loop of
+`XSLTEngineImpl::process` ends with: type accepted ⇔ the `type` pseudo-attribute is one of the four accepted media
+types; URI = the (unquoted) `href` pseudo-attribute — wherever in the PI they stand. -/
+theorem pi_scan_eq_lookup (ps : List (PI.Str × PI.Str)) (hp : PI.Plain ps) (hn : (PI.names ps).Nodup) :
+    PI.scanTokens (PI.toks ps) [] {} = ⟨PI.typeOk ps, PI.hrefOf ps⟩ := by
+  have := PI.scan_pairs ps [] {} hp hn (fun h => by cases h) (fun h => absurd rfl h)
+  simpa using this
+
+/-- **Order independence.**  Any reordering of the pseudo-attributes of an xml-stylesheet PI (href before type,
+title/media/charset/alternate anywhere) gives the same accepted-type flag and the same href. -/
+theorem pi_scan_order_independent (ps qs : List (PI.Str × PI.Str)) (h : ps.Perm qs) (hp : PI.Plain ps)
+    (hn : (PI.names ps).Nodup) :
+    PI.scanTokens (PI.toks ps) [] {} = PI.scanTokens (PI.toks qs) [] {} := by
+  have hpq : PI.Plain qs := fun p hm => hp p (h.mem_iff.mpr hm)
+  have hnq : (PI.names qs).Nodup := (List.Perm.nodup_iff (h.map (fun x : PI.Str × PI.Str => x.1))).mp hn
+  rw [pi_scan_eq_lookup ps hp hn, pi_scan_eq_lookup qs hpq hnq]
+  simp only [PI.typeOk, PI.hrefOf, PI.lookupP_perm h hn]
+
+/-- non-vacuity + the tie between characters and tokens on concrete PIs (the tokenizer itself is checked by the `pi`
+correspondence, not by a general theorem): href first with single quotes and blanks around `=`, extra pseudo-attributes -/
+example :
+    PI.tokens false (([104, 114, 101, 102, 61, 39, 117, 46, 120, 115, 108, 39, 32, 32, 116, 105, 116, 108, 101, 61, 34, 84, 34, 32, 116, 121, 112, 101, 32, 61, 32, 34, 116, 101, 120, 116, 47, 120, 115, 108, 34] : PI.Str)) =
+      PI.toks [(([104, 114, 101, 102] : PI.Str), ([39, 117, 46, 120, 115, 108, 39] : PI.Str)), (([116, 105, 116, 108, 101] : PI.Str), ([34, 84, 34] : PI.Str)), (([116, 121, 112, 101] : PI.Str), ([34, 116, 101, 120, 116, 47, 120, 115, 108, 34] : PI.Str))] ∧
+    PI.chosen false [none, some (([104, 114, 101, 102, 61, 39, 117, 46, 120, 115, 108, 39, 32, 32, 116, 105, 116, 108, 101, 61, 34, 84, 34, 32, 116, 121, 112, 101, 32, 61, 32, 34, 116, 101, 120, 116, 47, 120, 115, 108, 34] : PI.Str))] = some (([117, 46, 120, 115, 108] : PI.Str)) ∧
+    PI.chosen false [some (([116, 121, 112, 101, 61, 34, 116, 101, 120, 116, 47, 120, 115, 108, 34, 32, 109, 101, 100, 105, 97, 61, 34, 115, 99, 114, 101, 101, 110, 34, 32, 104, 114, 101, 102, 61, 34, 117, 46, 120, 115, 108, 34] : PI.Str))] = some (([117, 46, 120, 115, 108] : PI.Str)) := by
+  decide
+
+/-- Line ends between pseudo-attributes: the unchanged scan finds no stylesheet, the fixed one does
+(known finding `C05-pi-newline-separator`, `proposed/C05-pi-scan.diff`). -/
+theorem pi_newline_counterexample :
+    PI.chosen false [some (([116, 121, 112, 101, 61, 34, 116, 101, 120, 116, 47, 120, 115, 108, 34, 10, 104, 114, 101, 102, 61, 34, 117, 46, 120, 115, 108, 34] : PI.Str))] = none ∧
+    PI.chosen true [some (([116, 121, 112, 101, 61, 34, 116, 101, 120, 116, 47, 120, 115, 108, 34, 10, 104, 114, 101, 102, 61, 34, 117, 46, 120, 115, 108, 34] : PI.Str))] = some (([117, 46, 120, 115, 108] : PI.Str)) := by
+  decide
+
+/-- A PI that is not applicable in front of the XSLT one ends the unchanged search; the fixed search goes on
+(known finding `C05-pi-inapplicable-first`). -/
+theorem pi_inapplicable_first_counterexample :
+    PI.chosen false [some (([116, 121, 112, 101, 61, 34, 116, 101, 120, 116, 47, 99, 115, 115, 34, 32, 104, 114, 101, 102, 61, 34, 97, 46, 99, 115, 115, 34] : PI.Str)), some (([116, 121, 112, 101, 61, 34, 116, 101, 120, 116, 47, 120, 115, 108, 34, 32, 104, 114, 101, 102, 61, 34, 117, 46, 120, 115, 108, 34] : PI.Str))] = none ∧
+    PI.chosen true [some (([116, 121, 112, 101, 61, 34, 116, 101, 120, 116, 47, 99, 115, 115, 34, 32, 104, 114, 101, 102, 61, 34, 97, 46, 99, 115, 115, 34] : PI.Str)), some (([116, 121, 112, 101, 61, 34, 116, 101, 120, 116, 47, 120, 115, 108, 34, 32, 104, 114, 101, 102, 61, 34, 117, 46, 120, 115, 108, 34] : PI.Str))] = some (([117, 46, 120, 115, 108] : PI.Str)) ∧
+    PI.chosen false [some (([116, 121, 112, 101, 61, 34, 116, 101, 120, 116, 47, 120, 115, 108, 34] : PI.Str)), some (([116, 121, 112, 101, 61, 34, 116, 101, 120, 116, 47, 120, 115, 108, 34, 32, 104, 114, 101, 102, 61, 34, 117, 46, 120, 115, 108, 34] : PI.Str))] = none := by
   decide
 
 /-! ## composition -/
